@@ -2,4 +2,4 @@
 From Koala Require Import Model.Marker.
 Require Extraction.
 Require Import ExtrOcamlBasic.
-Extraction "model.ml" crosshair_num chern_num gz_marker theta.
+Extraction "model.ml" crosshair_num chern_num gz_marker theta gz_projb.
